@@ -101,7 +101,7 @@ def user_sources(ctx, rng, idx):
     mname = ["euler1d", "shallowwater"][idx % 2]
     neq = 3 if mname == "euler1d" else 2
     sub = _subset(idx // 2, neq)
-    s0 = gen.scenario1d(rng, mname=mname, mach_max=1.5, ratio=5.0, intdata=0.15, big=0.03)
+    s0 = gen.scenario1d(rng, mname=mname, mach_max=1.5, ratio=5.0, intdata=0.15, big=0.03, lscale=0.1)
     src = _sources(rng, neq, sub)
     mp = dict(s0.mparams)
     model1 = euler.euler1d(gamma=mp["gamma"], source=src) if mname == "euler1d" else shw.shallowwater1d(g=mp["g"], source=src)
